@@ -7,11 +7,15 @@
 // transaction that changes content or deletes something emits exactly one update per encoding."
 //
 // FUNCTIONS UNDER CONTRACT (whole real bodies)
-//   TransactionMut::encode_update     appends  blocks_from(store, before_state) ++ id_set_toks(delete_set):  there is a listing d with
-//                                     `diff_listing(d, store_sv(store), before_state)` and the log grows by
-//                                     `emit_all(.., sections(store, d))` -- the contract of `Store::write_blocks_from` PROVED in unit
-//                                     blockstore (stub, contract text cross-checked): exactly the integrated blocks at or above the
-//                                     transaction's before-state -- followed by the transaction's delete set.
+//   TransactionMut::encode_update     appends  blocks_between(store, after_state, before_state) ++ id_set_toks(delete_set):  there is a
+//                                     listing d with `diff_listing(d, after_state, before_state)` and the log grows by
+//                                     `emit_all(.., sections(store, d))` -- the contract of `Store::write_blocks_between` PROVED in
+//                                     unit blockstore (stub, contract text cross-checked): a section for exactly the clients on which
+//                                     the transaction's after-state is ahead of its before-state (`lemma_update_clients`), each
+//                                     from its before-state clock to the END of its list (also blocks integrated behind a gap, the
+//                                     gap as a Skip block: blockstore's `lemma_section_exact`) -- followed by the delete set.
+//                                     requires `enc_ok`: lists_wf, items_ok, and the after-state lists only known clients with clocks
+//                                     <= the end of the client's list (what write_blocks_between needs of its local side).
 //   TransactionMut::encode_update_v1 / _v2   the bytes of a fresh v1 / v2 encoder after encode_update (`upd_v1` / `upd_v2`).
 //   UpdateEvent::new_v1 / new_v2      the event carries exactly those bytes.
 //   StoreEvents::emit_update_v1 / _v2 the ghost log `emitted` of the observer (one entry per `trigger`, delivered to every
@@ -139,12 +143,6 @@ impl IdSet {
     }
 }
 
-impl BlockStore {
-    pub open spec fn wf(&self) -> bool {
-        lists_wf(self.clients@) && skips_wf(self.clients@, self.skips@)
-    }
-}
-
 /// stand-in: the one field the functions of this unit read
 pub struct Store {
     pub blocks: BlockStore,
@@ -256,29 +254,9 @@ pub open spec fn lists_wf(m: Map<ClientID, ClientBlockList>) -> bool {
     forall|c: ClientID| #[trigger] m.contains_key(c) ==> list_wf(m[c].inner@) && list_client(m[c].inner@, c)
 }
 
-/// clock `k` lies in a Skip block of the list
-pub open spec fn skip_covers(s: Seq<Block>, k: int) -> bool {
-    exists|i: int| 0 <= i < s.len() && (#[trigger] s[i]).skip() && s[i].start() <= k < s[i].next()
-}
 
-/// REPRESENTATION INVARIANT, skips: `skips` is a well-formed IdSet whose points are exactly the clocks of the Skip blocks
-pub open spec fn skips_wf(m: Map<ClientID, ClientBlockList>, sk: Map<ClientID, Seq<Ent<()>>>) -> bool {
-    &&& wf_map(sk)
-    &&& forall|c: ClientID, k: int| #![trigger has_pt(sk, c, k)] has_pt(sk, c, k) <==> skip_covers(blocks_of(m, c), k)
-}
 
-/// index of the first Skip at or after `i` (the length of the list if there is none)
-pub open spec fn first_skip(s: Seq<Block>, i: int) -> int
-    decreases s.len() - i,
-{
-    if i < 0 || i >= s.len() || s[i].skip() { i } else { first_skip(s, i + 1) }
-}
 
-/// the first clock NOT yet integrated: the start of the first Skip block, or the clock after the last block
-pub open spec fn first_gap(s: Seq<Block>) -> int {
-    let n = first_skip(s, 0);
-    if n < s.len() { s[n].start() } else { list_clock(s) }
-}
 
 /// index of the block that contains `clock`
 pub open spec fn block_idx(s: Seq<Block>, clock: int) -> int {
@@ -324,10 +302,6 @@ pub open spec fn block_tokens(b: Block, off: u32) -> Seq<Tok> {
     }
 }
 
-/// the skip-aware state vector of the store (what `get_state_vector` returns)
-pub open spec fn store_sv(cl: Map<ClientID, ClientBlockList>) -> Map<ClientID, u32> {
-    Map::new(cl.dom(), |c: ClientID| first_gap(cl[c].inner@) as u32)
-}
 
 /// one client section of the written update: the client, the first written clock, the client's list and the index of
 /// the first written block
@@ -401,6 +375,12 @@ pub open spec fn diff_listing(d: Seq<(ClientID, u32)>, local: Map<ClientID, u32>
 /// every stored Item satisfies the abstract precondition of `ItemSlice::encode` about dropped fields (see unit upd)
 pub open spec fn items_ok(cl: Map<ClientID, ClientBlockList>) -> bool {
     forall|c: ClientID, i: int| #![trigger cl[c].inner@[i]] cl.contains_key(c) && 0 <= i < cl[c].inner@.len() && cl[c].inner@[i] is Item ==> item_rest_ok(*cl[c].inner@[i]->Item_0)
+}
+
+/// PRECONDITION of `write_blocks_between` on its local side: it lists only clients the store knows, with clocks that do not
+/// exceed the end of the client's list (so that the first written clock lies in the list and `find_index` hits)
+pub open spec fn local_ok(cl: Map<ClientID, ClientBlockList>, local: Map<ClientID, u32>) -> bool {
+    forall|c: ClientID| #[trigger] local.contains_key(c) ==> cl.contains_key(c) && local[c] <= list_clock(cl[c].inner@)
 }
 
 // ---------------------------------------------------------------------------------------------
@@ -506,13 +486,14 @@ impl EncoderV2 {
 impl Store {
     // proved in unit blockstore
     #[verifier::external_body]
-    /*@extract yrs/src/store.rs | impl Store | fn write_blocks_from | label=Store.write_blocks_from
+    /*@extract yrs/src/store.rs | impl Store | fn write_blocks_between | label=Store.write_blocks_between
     @sig
         requires
-            self.blocks.wf(),
+            lists_wf(self.blocks.clients@),
             items_ok(self.blocks.clients@),
+            local_ok(self.blocks.clients@, local_sv@),
         ensures
-            exists|d: Seq<(ClientID, u32)>| diff_listing(d, store_sv(self.blocks.clients@), sv@)
+            exists|d: Seq<(ClientID, u32)>| diff_listing(d, local_sv@, sv@)
                 && final(encoder).log() == emit_all(old(encoder).log(), sections(self.blocks.clients@, d)),
     @*/
 }
@@ -562,14 +543,24 @@ pub struct TransactionMut {
 /// what a transaction must satisfy for its update to be encodable (the representation invariant of its store, unit blockstore,
 /// and of its delete set, unit ids_lift)
 pub open spec fn txn_ok(txn: &TransactionMut) -> bool {
-    &&& txn.store.blocks.wf()
-    &&& items_ok(txn.store.blocks.clients@)
+    &&& enc_ok(txn)
     &&& wf_map(txn.delete_set@)
+}
+
+/// what `encode_update` needs: the lists of the store are well-formed, and the transaction's AFTER-state lists only clients the
+/// store knows, with clocks that do not exceed the end of the client's list.  (The real after_state() is get_state_vector() --
+/// first gaps <= list ends, domain = the store's clients -- raised by `set_max(client, clock_end)` over the transaction's insert
+/// set, whose ranges are ids of blocks this transaction pushed into the store: an argument about the stand-in's input, not
+/// decided here.)
+pub open spec fn enc_ok(txn: &TransactionMut) -> bool {
+    &&& lists_wf(txn.store.blocks.clients@)
+    &&& items_ok(txn.store.blocks.clients@)
+    &&& local_ok(txn.store.blocks.clients@, txn.after_state@)
 }
 
 /// the tokens of the transaction's update: the blocks at or above the before-state, then the delete set
 pub open spec fn is_update_toks(txn: &TransactionMut, l: Seq<Tok>) -> bool {
-    exists|d: Seq<(ClientID, u32)>| diff_listing(d, store_sv(txn.store.blocks.clients@), txn.before_state@)
+    exists|d: Seq<(ClientID, u32)>| diff_listing(d, txn.after_state@, txn.before_state@)
         && l == emit_all(Seq::<Tok>::empty(), sections(txn.store.blocks.clients@, d)) + id_set_toks(txn.delete_set)
 }
 
@@ -611,10 +602,11 @@ impl TransactionMut {
     /*@extract yrs/src/transaction.rs | impl<'doc> TransactionMut<'doc> | fn encode_update | label=TransactionMut.encode_update
     @sig
         requires
-            self.store.blocks.wf(),
-            items_ok(self.store.blocks.clients@),
+            enc_ok(self),
         ensures
-            exists|d: Seq<(ClientID, u32)>| diff_listing(d, store_sv(self.store.blocks.clients@), self.before_state@)
+            // blocks_between(store, after_state, before_state) ++ the delete set: a section for exactly the clients on which the
+            // after-state is ahead of the before-state, each from its before-state clock to the END of its list
+            exists|d: Seq<(ClientID, u32)>| diff_listing(d, self.after_state@, self.before_state@)
                 && final(encoder).log() == emit_all(old(encoder).log(), sections(self.store.blocks.clients@, d)) + id_set_toks(self.delete_set),
     @*/
 
@@ -622,8 +614,7 @@ impl TransactionMut {
     @ret r
     @sig
         requires
-            self.store.blocks.wf(),
-            items_ok(self.store.blocks.clients@),
+            enc_ok(self),
         ensures
             upd_v1(self, r@),
     @*/
@@ -632,8 +623,7 @@ impl TransactionMut {
     @ret r
     @sig
         requires
-            self.store.blocks.wf(),
-            items_ok(self.store.blocks.clients@),
+            enc_ok(self),
         ensures
             upd_v2(self, r@),
     @*/
@@ -646,8 +636,7 @@ impl UpdateEvent {
     @ret r
     @sig
         requires
-            txn.store.blocks.wf(),
-            items_ok(txn.store.blocks.clients@),
+            enc_ok(txn),
         ensures
             upd_v1(txn, r.update@),
     @*/
@@ -656,8 +645,7 @@ impl UpdateEvent {
     @ret r
     @sig
         requires
-            txn.store.blocks.wf(),
-            items_ok(txn.store.blocks.clients@),
+            enc_ok(txn),
         ensures
             upd_v2(txn, r.update@),
     @*/
@@ -729,6 +717,34 @@ impl StoreEvents {
     @start
         proof { axiom_state_vector_eq(); }
     @*/
+}
+
+/// which clients an update has a section for: exactly those on which the after-state is ahead of the before-state (or that
+/// only the after-state lists)
+pub proof fn lemma_update_clients(d: Seq<(ClientID, u32)>, after: Map<ClientID, u32>, before: Map<ClientID, u32>, c: ClientID)
+    requires
+        diff_listing(d, after, before),
+    ensures
+        (exists|i: int| 0 <= i < d.len() && (#[trigger] d[i]).0 == c) <==>
+            (before.contains_key(c) && sv_get(after, c) > before[c]) || (after.contains_key(c) && !before.contains_key(c)),
+        forall|i: int| 0 <= i < d.len() && (#[trigger] d[i]).0 == c ==> d[i].1 == sv_get(before, c),
+{
+    if exists|i: int| 0 <= i < d.len() && (#[trigger] d[i]).0 == c {
+        let i = choose|i: int| 0 <= i < d.len() && (#[trigger] d[i]).0 == c;
+        assert(d.contains((c, d[i].1)));
+        assert(diff_has(after, before, c, d[i].1));
+    }
+    if (before.contains_key(c) && sv_get(after, c) > before[c]) || (after.contains_key(c) && !before.contains_key(c)) {
+        let k: u32 = if before.contains_key(c) { before[c] } else { 0 };
+        assert(diff_has(after, before, c, k));
+        assert(d.contains((c, k)));
+        let i = choose|i: int| 0 <= i < d.len() && d[i] == (c, k);
+        assert(d[i].0 == c);
+    }
+    assert forall|i: int| 0 <= i < d.len() && (#[trigger] d[i]).0 == c implies d[i].1 == sv_get(before, c) by {
+        assert(d.contains((c, d[i].1)));
+        assert(diff_has(after, before, c, d[i].1));
+    }
 }
 
 /// C07, read as the property states it: with a subscriber, a transaction that changes nothing (no deleted id, state vector
